@@ -4,6 +4,8 @@ from props import c02
 
 def run(ctx):
     c02.run_machine(ctx, "sort", ["sort"])
+    from props import c01
+    c01.histories_for(ctx, "C03", 300 if ctx.tier == "quick" else 4000)
 
 
 def replay(ctx, rp):
